@@ -128,6 +128,7 @@ class PeerRun:
         was_open = peer is not None
         if peer is not None:
             peer.sock.inbox = b""
+            peer.sock.peer_closed = True
             self._deliver(peer, b"")          # recv() returns b"": closed remotely
         self.events.append({"op": "close", "key": key, "was_open": was_open, "post": self.post()})
 
